@@ -295,14 +295,22 @@ pub mod l3gen {
             2 => (sel(), sel(), sel()).prop_map(|(s, l, l2)| vec![Op::MakePending { s }, Op::Poll, Op::Dispatch { l }, Op::Dispatch { l: l2 }, Op::Poll, Op::MakeReady { s }, Op::Poll]),
             // a readiness failure with connections queued behind it
             2 => (sel(), sel(), sel()).prop_map(|(s, l, l2)| vec![Op::Dispatch { l }, Op::FailNext { s }, Op::Dispatch { l: l2 }, Op::Poll, Op::Poll, Op::Poll]),
+            // more connections than any per-poll batch could hold, queued while a service is pending
+            1 => (sel(), sel(), any::<u8>()).prop_map(|(s, l, n)| vec![Op::MakePending { s }, Op::Poll, Op::DispatchBurst { l, n }, Op::Poll, Op::MakeReady { s }, Op::Poll]),
+            1 => (sel(), any::<u8>()).prop_map(|(l, n)| vec![Op::DispatchBurst { l, n }, Op::Poll]),
+            // the worker parks idle, a service turns pending / failing without a call in between, then a connection arrives
+            2 => (sel(), sel(), sel()).prop_map(|(s, l, s2)| vec![Op::Poll, Op::MakePending { s }, Op::Dispatch { l }, Op::Poll, Op::MakeReady { s: s2 }, Op::Poll]),
+            // a re-creation that takes its time
+            1 => (sel(), sel()).prop_map(|(s, l)| vec![Op::HoldFactory { s }, Op::FailNext { s }, Op::Poll, Op::Dispatch { l }, Op::Poll, Op::ReleaseFactory { s }, Op::Poll]),
         ];
         (
             1usize..4,
             prop::collection::vec(0u8..3, 3),
             prop::collection::vec(prop_oneof![3 => Just(SvcState::Ready), 1 => Just(SvcState::Pending)], 3),
             prop::collection::vec(op, 1..10),
+            prop_oneof![2 => Just(8usize), 1 => Just(200usize)],
         )
-            .prop_map(|(services, factory_delay, initial, ops)| Case { services, limit: 8, shutdown_timeout_s: 30, factory_delay, initial, ops: ops.into_iter().flatten().collect() })
+            .prop_map(|(services, factory_delay, initial, ops, limit)| Case { services, limit, shutdown_timeout_s: 30, factory_delay, initial, ops: ops.into_iter().flatten().collect() })
     }
 
     /// C02 at the worker: small limits, many connections, readiness failures (service restarts
@@ -350,6 +358,11 @@ pub mod l3gen {
                 if poll_first {
                     ops.push(Op::Poll);
                 }
+                // in a sixth of the cases the stop arrives while a service is being re-created and
+                // its factory takes its time (never finishes within the case)
+                if ops.len() % 6 == 5 {
+                    ops.extend([Op::HoldFactory { s: 0 }, Op::FailNext { s: 0 }, Op::Poll, Op::Poll]);
+                }
                 if race {
                     ops.push(Op::DispatchStopRace { l: 0, graceful });
                 } else {
@@ -361,13 +374,13 @@ pub mod l3gen {
     }
 }
 
-const RULE_L3: &str = "L3: op lists (dispatch through the real stepped accept loop / poll the worker when its waker fired / make a service ready or pending / fail its next readiness check / finish a connection / advance the virtual clock / stop graceful|forced) against the real ServerWorker future polled by hand under paused Tokio time with 1..3 scripted services (state-based readiness that wakes on change, factory futures pending 0..2 polls)";
+const RULE_L3: &str = "L3: op lists (dispatch through the real stepped accept loop / poll the worker when its waker fired / make a service ready or pending / fail its next readiness check / finish a connection / 17..100 clients at once / hold back and release the factory of a re-created service / advance the virtual clock / stop graceful|forced) against the real ServerWorker future polled by hand under paused Tokio time with 1..3 scripted services (state-based readiness that wakes on change, factory futures pending 0..2 polls)";
 
 pub fn run_c07(ctx: &Ctx) {
     use crate::l3;
     ctx.assume("the worker is re-polled only when the waker it was given fired; scripted services wake the stored waker whenever their readiness state changes, as a well-behaved service must");
     ctx.run_corpus::<l3::Case>("l3", |c| l3::run_case(c, l3::Prop::C07));
-    let rule = format!("{RULE_L3}; oracle on the event log: each call is preceded, since the previous call, by a readiness check of every live service whose latest result is Ready(Ok); calls happen in receive order on the service of the connection's listener; a failed readiness check is followed by exactly one re-creation of that service only, the old instance is never used again; with all services ready every dispatched connection is called exactly once; non-trivial = a connection was queued while a service was pending/failing, or a restart happened");
+    let rule = format!("{RULE_L3}; oracle on the event log: each call is preceded, since the previous call and within the same poll of the worker, by a readiness check of every live service whose latest result is Ready(Ok); calls happen in receive order on the service of the connection's listener; a failed readiness check is followed by exactly one re-creation of that service only, the old instance is never used again; with all services ready every dispatched connection is called exactly once; non-trivial = a connection was queued while a service was pending/failing, or a restart happened");
     ctx.run_random(
         Part::new("l3", &rule, ctx.tier.scale(60_000, 10)).floors(&[("queued-while-unready", 0.3), ("restart", 0.15), ("services>=2", 0.5), ("readiness-pending", 0.3)]).shrink_iters(4000),
         l3gen::c07_strategy,
@@ -438,9 +451,9 @@ pub fn run_c09(ctx: &Ctx) {
     ctx.assume("thread interleavings are sampled by the OS scheduler and only perturbed by generated jitter; hangs are judged by a 10 s watchdog (typical latencies are below 5 ms); a second stop issued by another thread may legitimately win");
     ctx.run_corpus::<rt::C09Case>("threads", rt::check_c09);
     ctx.run_random(
-        Part::new("threads", "(0..3 arbiters each stopped-and-joined early / detached / idle / busy yielding / busy blocking / busy blocking with 33..160 further commands queued behind the blocking one so that the Stop command arrives at the end of a long queue / dead-but-still-registered (stopped with a slowly dropping task queued behind the stop), stop issued from the system thread before run, a system task, an arbiter task or a foreign thread, exit codes incl. 0 and i32::MIN, optional second stop sequenced by the same thread or racing from another, run() or run_with_code(), jitter) on a fresh System per case; oracle: returned code is the first stop's (either when racing), run() is Ok iff the code is 0, every arbiter alive at the stop can be joined / drops its parked task; non-trivial = an arbiter alive at the stop and the stop not issued before run, or two stops", ctx.tier.scale(4_000, 8))
-            .floors(&[("arbiter-alive-at-stop", 0.5), ("two-stops", 0.3), ("dead-but-registered-arbiter", 0.2), ("stop-from-arbiter", 0.1), ("stop-behind-long-queue", 0.2)])
-            .shrink_iters(300),
+        Part::new("threads", "(0..3 arbiters each stopped-and-joined early / detached / idle / busy yielding / busy blocking / busy blocking with 33..160 further commands queued behind the blocking one so that the Stop command arrives at the end of a long queue / created through Arbiter::with_tokio_rt with a runtime factory of its own that is fast or (rarely) takes 1.1 s / dead-but-still-registered (stopped with a slowly dropping task queued behind the stop), stop issued from the system thread before run, a system task, an arbiter task or a foreign thread, exit codes incl. 0 and i32::MIN, optional second stop sequenced by the same thread (in half of the cases with an arbiter created between the two stop calls when they are issued from the system thread) or racing from another, run() or run_with_code(), jitter) on a fresh System per case; oracle: returned code is the first stop's (either when racing), run() is Ok iff the code is 0, every arbiter alive at the stop can be joined / drops its parked task; non-trivial = an arbiter alive at the stop and the stop not issued before run, or two stops", ctx.tier.scale(4_000, 8))
+            .floors(&[("arbiter-alive-at-stop", 0.5), ("two-stops", 0.3), ("dead-but-registered-arbiter", 0.1), ("stop-from-arbiter", 0.05), ("stop-behind-long-queue", 0.1), ("with_tokio_rt", 0.08), ("arbiter-created-between-two-stops", 0.02)])
+            .shrink_iters(24),
         rt::gen::c09,
         rt::check_c09,
     );
@@ -455,9 +468,9 @@ pub fn run_c10(ctx: &Ctx) {
     ctx.assume("sends are totally ordered by hand-over between the harness and its sender threads, so FIFO and 'nothing sent after stop() returned ever starts' are asserted only where happens-before is established by the harness");
     ctx.run_corpus::<rt::C10Case>("threads", rt::check_c10);
     ctx.run_random(
-        Part::new("threads", "command scripts, in 40% of the cases on a thread on which an earlier System has already been created, run and stopped (spawn of tasks that complete / yield / pend forever / panic / send nested commands through Arbiter::current() / hold the arbiter thread while further commands are queued and then send a nested command / stop their own arbiter and then spawn; spawn_fn; sync markers; stop; bursts of 100-280 functions) issued through the owner handle and cloned handles on up to two other threads with hand-over, against a thread arbiter or the system arbiter; oracle on the start log (id, thread, system): strictly increasing ids in start order, no id twice, every start on the arbiter thread with the creating system, everything sent before a sync marker started before it ran, nothing sent after stop() returned ever starts, after join() spawn/stop return false and nothing starts, block_on returns its output; non-trivial = a stop that is not last with commands after it, or >= 2 senders, or a panicking/pending task", ctx.tier.scale(4_000, 8))
-            .floors(&[("senders>=2", 0.4), ("sent-after-stop", 0.25), ("gated", 0.1), ("system-arbiter", 0.1), ("second-system-on-this-thread", 0.2), ("current-arbiter-used-in-second-system", 0.02)])
-            .shrink_iters(300),
+        Part::new("threads", "command scripts, in 40% of the cases on a thread on which an earlier System has already been created, run and stopped, in 30% with sender threads that belong to another System, in 30% with an arbiter created through with_tokio_rt (spawn of tasks that complete / yield / pend forever / panic / send nested commands through Arbiter::current() / hold the arbiter thread while further commands are queued and then send a nested command / stop their own arbiter and then spawn; spawn_fn; sync markers; stop; bursts of 100-280 functions) issued through the owner handle and cloned handles on up to two other threads with hand-over, against a thread arbiter or the system arbiter; oracle on the start log (id, thread, system): strictly increasing ids in start order, no id twice, every start on the arbiter thread with the creating system, everything sent before a sync marker started before it ran, nothing sent after stop() returned ever starts, after join() spawn/stop return false and nothing starts, block_on returns its output; non-trivial = a stop that is not last with commands after it, or >= 2 senders, or a panicking/pending task", ctx.tier.scale(4_000, 8))
+            .floors(&[("senders>=2", 0.4), ("sent-after-stop", 0.25), ("gated", 0.1), ("system-arbiter", 0.1), ("second-system-on-this-thread", 0.2), ("current-arbiter-used-in-second-system", 0.02), ("with_tokio_rt", 0.1), ("senders-of-another-system", 0.1)])
+            .shrink_iters(40),
         rt::gen::c10,
         rt::check_c10,
     );
